@@ -355,6 +355,12 @@ func (w *World) execBegin(st *Step) {
 	pre := w.Cur
 	h := w.Chain.Height() + 1
 	res := w.Chain.BeginBlock(h, t)
+	if res.Panic != "" && w.Property != "C12" {
+		// a panicking BeginBlock halts a real chain: that is C12's subject, every other checker's run ends here
+		w.Aborted = true
+		w.Probe("run_aborted_beginblock_panic")
+		return
+	}
 	w.inBlock = true
 	w.Stats.SimNanos += satSub(t, w.LastTime)
 	w.LastTime = t
